@@ -478,6 +478,13 @@ def run(chk, tier):
         chk.count(r + "-GENSALT", sub.rules[r]["ok"], ["grid"])
     chk.rules["X-ERR-GENSALT"]["desc"] = "gensalt grid: NULL return => errno in {EINVAL, ERANGE}"
     chk.rules["X-TOK-GENSALT"]["desc"] = "gensalt grid: NULL return => failure token intact"
+    # malformed parameters: near-miss settings (one salt / cost character outside the field's alphabet) must be refused
+    from .. import compose_grid as CG
+    nm = CG.run_near_miss(tier)
+    per = CG.near_miss_oracle(chk, nm)
+    if len(per) < 6:
+        raise AnalysisBroken("near-miss grid decided only %d methods" % len(per))
+    chk.note("near_miss", {"cells": nm["ncells"], "per_method": per, "engine_wall_s": round(nm["wall"], 1)})
     chk.floor("R-NO-ERR-AFTER-WRITE", 60)
     chk.floor("R-ERR-SET", 40)
     chk.assumptions += ["libc sets errno (ENOMEM) when malloc/realloc/mmap fail and (EINVAL) when munmap fails",
